@@ -84,11 +84,28 @@ def run(ctx):
         if ra != exp:
             ctx.violation('dtls_header %s: implementation "%s", demanded "%s"' % (core.hexs(buf[:13]), ra, exp), {'lines': ['dtls_header ' + core.hexs(buf)], 'expect': exp}, key='hdr')
     ctx.sample({'line': lines[len(lines) // 3][:200], 'impl': core.split_side(impl[len(lines) // 3])[0][:200]})
+    # the fragment rule over every handshake type x boundary triples: offset > 0 or fragment_length < length  =>  an opaque
+    # Fragment of exactly fragment_length bytes, whatever the type (also the body-less ones) and whatever the total length
+    fr = []
+    for t in range(256):
+        for ln, off, fl in ((0, 1, 0), (0, 0xffffff, 0), (1, 0, 0), (5, 0, 4), (5, 1, 4), (5, 5, 0), (5, 1, 5), (300, 299, 1), (0xffffff, 0, 2), (0xffffff, 0xfffffe, 1), (70000, 3, 20000)):
+            if t % 3 and (ln, off, fl) == (70000, 3, 20000):
+                continue
+            seq = (t * 251 + ln) % 65536
+            buf = bytes([t]) + ln.to_bytes(3, 'big') + seq.to_bytes(2, 'big') + off.to_bytes(3, 'big') + fl.to_bytes(3, 'big') + bytes((7 * k + t) % 256 for k in range(min(fl, 64))) * 1
+            buf = buf[:12] + (bytes(fl) if fl > 64 else buf[12:])
+            fr.append(enc.Case('fragment_rule', ('dtls_hs',), buf + b'\x55', [], None,
+                               expect='ok 1 (M 1 (Hs %d %d %d %d %d (Fragment %s)))' % (t, ln, seq, off, fl, core.span(12, fl))))
+    common.run_exact(ctx, fr)
+    # as many minimal records as fit a 64 KiB datagram: decoded record by record, all of them
+    from props import c16
+    common.run_exact(ctx, [enc.Case('many_minimal_records', (op,), buf, [], None, expect=exp) for op, buf, exp, _, _ in (c16.many_minimal(ctx.rng, True, k) for k in (2622, 4681))])
     n = 1500 if ctx.thorough else 150
     fams = ['dtls_record', 'dtls_records', 'dtls_hs', 'dtls_misc'] + ['dtls_hs_' + k for k in enc.DTLS_HS_KINDS]
     fams = [f for f in fams if f in enc.FAMILIES]
     exact, mutants = common.gen_cases(ctx, fams, n)
     common.run_exact(ctx, exact)
+    common.run_exact(ctx, common.long_tails(ctx, exact))
     common.run_differential(ctx, mutants, common.proj_framing_line)
     common.run_cg(ctx, ('dtls_',), common.proj_framing_line)
     common.lean_failure_violation(ctx, ok)
